@@ -211,7 +211,9 @@ Apply(S, r) ==
                 S2 == IF gone THEN [SetBar(S1, b, [B2 EXCEPT !.vis = FALSE]) EXCEPT !.order = Remove(S1.order, b)]
                       (* a bar dropped while the region is cleared (MultiProgress::clear, no paint *)
                       (* since) is not on the terminal and need not come back                      *)
-                      ELSE SetBar(S1, b, [B2 EXCEPT !.static = B2.inmp /\ B2.vis, !.mayVanish = S1.blanked])
+                      (* ... and so is one dropped after the terminal height has cut the region (C02: a bar finished visibly MAY remain): *)
+                      (* it may be among the omitted bars at that moment, and what is not on the terminal cannot be kept               *)
+                      ELSE SetBar(S1, b, [B2 EXCEPT !.static = B2.inmp /\ B2.vis, !.mayVanish = S1.blanked \/ S1.wasCut])
             IN Res(S2, <<>>, vis /\ B.fin = "no", FALSE)
       [] r.op = "mp_remove" ->
             IF b \in S.ids /\ B.inmp
